@@ -124,7 +124,9 @@ func BuildAlphabet(t universe.Affine, level int) *Alphabet {
 	}
 	a.Multis = append(a.Multis,
 		mkOp(geom.NewMultiPoint([]geom.Point{t.Point(pts[4]), t.Point(pts[4])}).AsGeometry(), "multi"),
-		mkOp(geom.NewMultiPoint([]geom.Point{t.Point(pts[0]), geom.NewEmptyPoint(geom.DimXY), t.Point(pts[8])}).AsGeometry(), "multi"))
+		mkOp(geom.NewMultiPoint([]geom.Point{t.Point(pts[0]), geom.NewEmptyPoint(geom.DimXY), t.Point(pts[8])}).AsGeometry(), "multi"),
+		mkOp(geom.NewMultiPoint([]geom.Point{t.Point(pts[5]), geom.NewEmptyPoint(geom.DimXY), t.Point(pts[7])}).AsGeometry(), "multi"),
+		mkOp(geom.NewMultiPoint([]geom.Point{geom.NewEmptyPoint(geom.DimXY), t.Point(pts[4])}).AsGeometry(), "multi"))
 	segStep := 5
 	if level == 1 {
 		segStep = 2
